@@ -4,7 +4,7 @@ import RawPanelVerif.Gen.Consts
 
 (a) `procesMessagesFromPanel` (gorwp/rawpanel.go 278-365) as a pure function: effects (ack sends, handler
     invocations) and state updates per message, same order of effects as the Go code; the reader's message filter
-    (`readerKeeps`: the binary read loop forwards a message only when its flow field is not ACK); dispatch over a
+    (`readerKeeps`: the binary read loop drops a bare acknowledge; the pinned one dropped every message with flow field ACK); dispatch over a
     history that interleaves `Bind*` calls with events (`dispatchDyn`); `Connect`/`init` as a function of what
     happens inside the initialisation window (`connect`).
 (b) a small LTS of the goroutines around the two bounded channels `fromPanel` / `toPanel` (capacities taken from the
@@ -160,22 +160,29 @@ def isInitialized (s : PState) : Bool :=
 
 /-! ### the reader's message filter -/
 
-/-- `readFromPanel`: the binary loop forwards a decoded message only `if outgoingMessage.FlowMessage != 2` (238) — a
-message whose flow field is ACK is dropped with everything else it carries; the ASCII loop skips the line `ack` only
-(267), what the panel sent along with it arrives as lines (messages) of its own.  `dropAck` = the reader drops a whole
-message whose flow field is ACK: `true` for the binary reader of the code as it is, `false` for the ASCII reader. -/
-def readerKeeps (dropAck : Bool) (m : OutMsg) : Bool := !(dropAck && decide (m.flow = .ack))
+/-- which messages with flow field ACK `readFromPanel` does not forward.  `bare`: the binary reader of the code as it
+is — only a message that equals a bare acknowledge (`proto.Equal(msg, &OutboundMessage{FlowMessage: ACK})`, 242);
+`none`: the ASCII reader, which skips the line `ack` only (271), so that whatever else the panel sent arrives as lines
+(messages) of its own; `whole`: the pinned binary reader (`if outgoingMessage.FlowMessage != 2`), which dropped such a
+message with everything else it carried. -/
+inductive AckFilter | whole | bare | none
+  deriving DecidableEq, Repr
+
+/-- an ACK message that carries nothing else (the only kind a filter may drop without loss) -/
+def pureAck (m : OutMsg) : Bool := m.info.isNone && m.avail.isNone && m.topo.isNone && m.events.isEmpty
+
+def readerKeeps : AckFilter → OutMsg → Bool
+  | .whole, m => !decide (m.flow = .ack)
+  | .bare, m => !(decide (m.flow = .ack) && pureAck m)
+  | .none, _ => true
 
 /-- what the dispatcher gets to see of a history -/
-def readerView (dropAck : Bool) (h : List OutMsg) : List OutMsg := h.filter (readerKeeps dropAck)
+def readerView (f : AckFilter) (h : List OutMsg) : List OutMsg := h.filter (readerKeeps f)
 
 /-- invocation log / ack count / state of the client for what the panel SENT -/
-def clientLog (dropAck : Bool) (b : Bindings) (h : List OutMsg) : List Invocation := dispatch b (readerView dropAck h)
-def clientAcks (dropAck : Bool) (h : List OutMsg) : Nat := acks (readerView dropAck h)
-def clientState (dropAck : Bool) (s : PState) (h : List OutMsg) : PState := finalState s (readerView dropAck h)
-
-/-- an ACK message that carries nothing else (the only kind the filter may drop without loss) -/
-def pureAck (m : OutMsg) : Bool := m.info.isNone && m.avail.isNone && m.topo.isNone && m.events.isEmpty
+def clientLog (f : AckFilter) (b : Bindings) (h : List OutMsg) : List Invocation := dispatch b (readerView f h)
+def clientAcks (f : AckFilter) (h : List OutMsg) : Nat := acks (readerView f h)
+def clientState (f : AckFilter) (s : PState) (h : List OutMsg) : PState := finalState s (readerView f h)
 
 /-! ### `Bind*` while events are flowing
 
@@ -221,7 +228,7 @@ inductive InitEv
   deriving DecidableEq, Repr
 
 /-- Does `Connect` return `(panel, nil)`?  The poller (131-139) reports an initialised state; `ctx.Done()` makes `init`
-return nil in the pinned code (143-144) and — `strictInit`, the repair — an error unless the state is initialised;
+return — `strictInit`, the code as it is (143-148) — an error unless the state is initialised, and nil in the pinned code;
 the timer returns the error.  A history that just ends is one in which nothing more happens until the timer fires.
 (The 10 ms polling period and the 2 s are real time and outside the model.) -/
 def connectFrom (strictInit : Bool) : PState → List InitEv → Bool
